@@ -439,3 +439,71 @@ Proof.
   intros Hi. destruct (st_extend_spec t stamp e Hi) as (t' & H & R). exists t'. cbn [s_step]. rewrite H. cbn.
   split; [reflexivity | exact R].
 Qed.
+
+(* ------------------------------------------------- whole histories, restart/repeat included *)
+Lemma m_step_keeps_retro m c o x m' c' : m_step m c o = (x, m', c') -> m_retro m' = m_retro m.
+Proof.
+  unfold m_step. destruct (m_update m c) as [[e|m1] c1] eqn:E.
+  - intros H; inversion H; subst. reflexivity.
+  - destruct (m_apply m1 o) as [y m2] eqn:E2. intros H; inversion H; subst.
+    destruct (m_apply_latest _ _ _ _ E2) as [_ Hr]. rewrite Hr.
+    unfold m_update in E. destruct (tick c) as [r c2].
+    destruct (qltb (qsub r (m_latest m)) 0).
+    + destruct (m_retro m) eqn:Er; inversion E; subst; cbn; congruence.
+    + inversion E; subst; reflexivity.
+Qed.
+
+Lemma m_final_keeps_retro ops : forall m c m' c', m_final m c ops = (m', c') -> m_retro m' = m_retro m.
+Proof.
+  induction ops as [|o r IH]; intros m c m' c' H; cbn in H.
+  - inversion H; subst. reflexivity.
+  - destruct (m_step m c o) as [[x m1] c1] eqn:E. rewrite (IH _ _ _ _ H). eapply m_step_keeps_retro; eauto.
+Qed.
+
+(* the statement "elapsed never decreases except at an explicit restart/repeat", along a whole
+   history of ARBITRARY operations: at every call that is not a restart/repeat the elapsed
+   time (max 0 (latest - start)) after the call is >= the one before, whatever the clock
+   reading was (forward, standstill or backward); no call raises; an elapsed query reports
+   exactly that value. *)
+Fixpoint mono_run (m : mono) (c : clock) (ops : list op) : Prop :=
+  match ops with
+  | [] => True
+  | o :: r =>
+      let '(x, m', c') := m_step m c o in
+      (keeps_start o = true -> qmax0 (gap m) <= qmax0 (gap m')) /\
+      (forall e, x <> OErr e) /\
+      (o = Elapsed -> x = OQ (qmax0 (gap m'))) /\
+      mono_run m' c' r
+  end.
+
+Lemma mono_run_holds ops : forall m c, m_retro m = true -> mono_run m c ops.
+Proof.
+  induction ops as [|o r IH]; intros m c Hr; cbn [mono_run]; [exact I|].
+  destruct (tick c) as [rd c1] eqn:Et.
+  destruct (m_step_retro m c o rd c1 Hr Et) as (x & m1 & Hs & Hr1 & Hne & Hg & Hel).
+  rewrite Hs. split; [intros Hk; apply qmax0_mono; exact (Hg Hk)|].
+  split; [exact Hne|]. split; [exact Hel|]. apply IH. exact Hr1.
+Qed.
+
+(* after ANY prefix of operations (restarts and repeats included), every stretch of operations
+   without restart/repeat reports non-decreasing elapsed values, none below the elapsed at the
+   beginning of the stretch *)
+Lemma mono_between_restarts pre mid m c m1 c1 : m_retro m = true -> m_final m c pre = (m1, c1) ->
+  forallb keeps_start mid = true ->
+  StronglySorted Qle (elapsed_vals mid (m_runfrom m1 c1 mid)) /\
+  Forall (fun v => qmax0 (gap m1) <= v) (elapsed_vals mid (m_runfrom m1 c1 mid)).
+Proof.
+  intros Hr Hf Hk. apply m_run_elapsed_sorted; [|exact Hk].
+  rewrite (m_final_keeps_retro _ _ _ _ _ Hf). exact Hr.
+Qed.
+
+(* a restart()/repeat() is the only way elapsed can drop, and what it does is fixed:
+   repeat: new start = (shifted) previous stop; restart(): new start = latest = the reading *)
+Lemma m_restart_now_spec m c d m1 c1 : m_update m c = (inr m1, c1) ->
+  exists m', m_step m c (Restart None d) = (OSS (m_start m') (m_stop m'), m', c1) /\
+             m_start m' = m_latest m1 /\ gap m' == 0 /\
+             m_dur m' = match d with Some y => qabs y | None => m_dur m1 end.
+Proof.
+  intros Hu. unfold m_step. rewrite Hu. cbn. eexists (Build_mono _ _ _ _ _). split; [reflexivity|]. cbn.
+  split; [reflexivity|]. split; [unfold gap; cbn; lraq | reflexivity].
+Qed.
